@@ -19,7 +19,7 @@ ID = "C12"
 LEVEL = "model_checking"
 MIN_OUTCOMES = 3
 MANIFEST = {
-    'text': "All strings over the stated 15/17-symbol alphabet (quotes, backslash, $, backtick, %, newline, non-ASCII incl. a decomposed accent and U+2126 that change under Unicode normalisation, placeholders, OLD/NEW) up to length 3/4 in every slot (commit and tag message via TOML config, via setup.cfg and via CLI, file name, version-pattern literal) are run through the real `update` with a fake git/hg at the subprocess seam; the recorded argv vectors must equal those of the benign baseline run with only the one argument replaced by the expected text (hg: the --logfile content). Twelve whole messages in the shapes people use (`[ci/skip] ...`, `[skip ci]`, `chore(release): ...`, branch-listing look-alikes, multi-line bodies) run in repositories with an upstream, with only a remote URL and without any remote - the fake answers `git branch -vv` with the subject of the commit just made, as git does. A project whose newest tag is ahead of the config ({old_version}/OLD must be the tag's version). Projects with 330 configured files / 60 paths of ~150 characters: the multiset of paths handed to `git add` equals the configured files however the commands are grouped. Every string up to length 2 is additionally committed and tagged with a real git and read back from the objects.",
+    'text': "All strings over the stated 15/17-symbol alphabet (quotes, backslash, $, backtick, %, newline, non-ASCII incl. a decomposed accent and U+2126 that change under Unicode normalisation, placeholders, OLD/NEW) up to length 3/4 in every slot (commit and tag message via TOML config, via setup.cfg and via CLI, file name, version-pattern literal) are run through the real `update` with a fake git/hg at the subprocess seam; the recorded argv vectors must equal those of the benign baseline run with only the one argument replaced by the expected text (hg: the --logfile content). Twelve whole messages in the shapes people use (`[ci/skip] ...`, `[skip ci]`, `chore(release): ...`, branch-listing look-alikes, multi-line bodies) run in repositories with an upstream, with only a remote URL and without any remote - the fake answers `git branch -vv` with the subject of the commit just made, as git does. A project whose newest tag is ahead of the config ({old_version}/OLD must be the tag's version). Projects with 330 configured files / 60 paths of ~150 characters / 40 files of one directory: the multiset of paths handed to `git add` equals the configured files however the commands are grouped. Every string up to length 2 is additionally committed and tagged with a real git and read back from the objects.",
     'note': 'templates with braces other than the documented placeholders are outside the statement; how real git/hg interpret a leading dash is not covered (argv-level property)',
     'technique': 'exhaustive enumeration of a bounded input alphabet on the real code, differential trace oracle at the subprocess seam + real git',
 }
@@ -298,8 +298,9 @@ def many_files(st):
         "330-files": [f"many/mod_{i:03d}/__init__.py" for i in range(330)],
         "60-long-paths": [f"deep/{'segment_' * 14}{i:02d}/file_with_a_rather_long_name_{i:02d}.txt" for i in range(60)],
     }
+    shapes["40-in-one-directory"] = [f"docs/page_{i:02d}.md" for i in range(40)]  # (a directory must not stand in for its files)
     for name, paths in shapes.items():
-        glob_key = "many/*/__init__.py" if name == "330-files" else "deep/*/*.txt"
+        glob_key = {"330-files": "many/*/__init__.py", "60-long-paths": "deep/*/*.txt", "40-in-one-directory": "docs/page_*.md"}[name]
         cfg = "\n".join([
             "[bumpver]", 'current_version = "1.2.3"', 'version_pattern = "MAJOR.MINOR.PATCH"', "commit = true", "tag = true", "push = false",
             "", "[bumpver.file_patterns]", '"bumpver.toml" = [\'current_version = "{version}"\']', f'"{glob_key}" = ["ver={{version}};"]', "",
@@ -307,6 +308,8 @@ def many_files(st):
         files = {"bumpver.toml": cfg.encode()}
         for pth in paths:
             files[pth] = b"ver=1.2.3;\n"
+        if name == "40-in-one-directory":
+            files["docs/notes.txt"] = files["docs/sub/page_00.md"] = b"ver=1.2.3;\n"
         world.clear_dir(".")
         world.write_tree(files)
         os.mkdir(".git")
